@@ -4,6 +4,8 @@ import (
 	"context"
 	"fmt"
 	"os"
+	"runtime/debug"
+	"strings"
 	"testing/synctest"
 
 	"github.com/onosproject/onos-config/pkg/utils"
@@ -30,7 +32,7 @@ func (w *World) GoSet(ctx context.Context, req *gnmi.SetRequest) *Call {
 	go func() {
 		defer func() {
 			if r := recover(); r != nil {
-				c.Panic = fmt.Sprint(r)
+				c.Panic = notePanic(r)
 			}
 			c.Done = true
 		}()
@@ -82,6 +84,33 @@ func (w *World) ReapCalls() {
 	if reaped {
 		synctest.Wait()
 	}
+}
+
+// lastPanicSite is the innermost onos-config function on the stack of the most recent recovered panic.
+var lastPanicSite string
+
+// notePanic renders a recovered panic and remembers where in onos-config it was raised.
+func notePanic(r interface{}) string {
+	lastPanicSite = ""
+	seenPanic := false
+	if os.Getenv("VERIF_PANIC_STACK") != "" {
+		fmt.Printf("PANIC %v\n%s\n", r, debug.Stack())
+	}
+	for _, l := range strings.Split(string(debug.Stack()), "\n") {
+		if strings.HasPrefix(l, "panic(") {
+			seenPanic = true
+			continue
+		}
+		if seenPanic && strings.HasPrefix(l, "github.com/onosproject/onos-config/") {
+			f := strings.TrimPrefix(l, "github.com/onosproject/onos-config/")
+			if i := strings.LastIndex(f, "("); i > 0 {
+				f = f[:i]
+			}
+			lastPanicSite = f
+			break
+		}
+	}
+	return fmt.Sprint(r)
 }
 
 func bgCtx() context.Context { return context.Background() }
